@@ -136,7 +136,7 @@ def wfb (env : Env) : Ty → Bool
   | .refT t => wfRefOf t (wfb env t)
   | .prim p => p.wf && p.proved
   | .vmStack _ => false                  -- decode returns the reversed list: see `vmstack_convention`
-  | .dictE _ => true
+  | .dictE k t => (keyWidth k).isSome && wfb env k && wfb env t
   | .encErr _ => true
   | .opaque _ => false
 def wfFields (env : Env) : Fields → Bool
@@ -231,6 +231,23 @@ def ptrCellOk (t : Ty) (x : Val) : Bool :=
   | .cell, .cell c => c.ty != tyLibrary
   | _, _ => true
 
+def Val.isList : Val → Bool
+  | .nil => true
+  | .cons _ t => Val.isList t
+  | _ => false
+
+/-- the canonical dump of a dictionary: `()` when empty, else `(keys|values)` with non-empty proper lists -/
+def dictShapeOk (v : Val) : Bool :=
+  match v with
+  | .nil => true
+  | .cons ks (.cons vs .nil) => Val.isList ks && Val.isList vs && !ks.toList.isEmpty
+  | _ => false
+
+/-- strictly ascending in the order of key bits -/
+def strictlyAscending : List Hashmap.Key → Bool
+  | [] => true
+  | k :: rest => rest.all (fun k' => Hashmap.lexLt k k') && strictlyAscending rest
+
 mutual
 /-- the value is in the domain of the type: it fits the TL-B widths and the Go representation -/
 def inDom (env : Env) : Nat → Ty → Val → Bool
@@ -278,9 +295,19 @@ def inDom (env : Env) : Nat → Ty → Val → Bool
       | _ => false)
     | .refT t => inDom env fuel t v
     | .prim p => p.inDom v
-    | .dictE _ => (match v with
-      | .nil => true
-      | _ => false)
+    | .dictE k t => (match dictParts v, keyWidth k with
+      | some (ks, vs), some n =>
+        -- as many values as keys, every key and value in its domain; the keys listed in strictly ascending order of
+        -- their encoded bits (what the decoder returns); every value fits a leaf next to a full-width label
+        ks.length == vs.length && dictShapeOk v &&
+        ks.all (fun kv => inDom env fuel k kv) && vs.all (fun x => inDom env fuel t x) &&
+        (match mapMOutcome (fun kv => (encode env fuel k kv Builder.empty).bind fun kb => .ok kb.bits) ks with
+          | .ok kbits => kbits.all (·.length == n) && strictlyAscending kbits
+          | _ => false) &&
+        vs.all (fun x => match encode env fuel t x Builder.empty with
+          | .ok vb => vb.bits.length + n + 9 + Hashmap.minBitsRequired n ≤ 1023 && vb.refs.length ≤ 4
+          | _ => false)
+      | _, _ => false)
     | .encErr _ => true
     | _ => false
 /-- domain of one struct field (mirrors the fuel use of `encodeField`) -/
